@@ -1,6 +1,8 @@
 package main
 
 import (
+	"go/token"
+	"go/types"
 	"strings"
 
 	"golang.org/x/tools/go/ssa"
@@ -28,9 +30,6 @@ func init() {
 	except(p, "C17.2", "hdf5.FileWriter.resolveObjectAddress#structures.LocalHeap.GetString#swallowed", "an unreadable name cannot match; the loop falls through to the 'object not found' error, so the caller still gets an error")
 	except(p, "C17.2", "hdf5.loadObject#structures.LocalHeap.GetString#swallowed", "redirect detection only; on failure the node is loaded as a real group, which reads the same name through the same heap and returns that error")
 	except(p, "C17.2", "hdf5.loadTraditionalGroup#core.ReadObjectHeader#swallowed", "heap stays nil and the function returns 'could not find local heap'")
-	for _, f := range []string{"core.DeleteCompactAttribute", "core.FindCompactAttribute", "core.ModifyCompactAttribute", "hdf5.deleteCompactAttributeFromHeader", "hdf5.writeCompactAttribute"} {
-		except(p, "C17.2", f+"#core.ParseAttributeMessage#swallowed", "in-memory parse of an already-read header message while searching by name; an unparsable message cannot be the named attribute; no I/O result involved")
-	}
 	except(p, "C17.2", "core.ParseAttributesFromMessages#core.ParseAttributeInfoMessage#swallowed", "in-memory parse of an already-read message, no I/O result involved; the silent loss of dense attributes on an unsupported encoding is reported under C06.3")
 	except(p, "C17.2", "core.ParseAttributesFromMessages#core.ParseAttributeMessage#swallowed", "in-memory parse of an already-read message, no I/O result involved; the silent loss of an attribute with an unsupported encoding is reported under C06.3")
 	except(p, "C17.2", "core.findContinuations#core.parseContinuationMessage#swallowed", "in-memory parse of an already-read message, no I/O result involved; reported under C06.3")
@@ -155,6 +154,12 @@ func ruleC17ErrFlow(c *Ctx, r *Result) {
 			r.Hold("C17.2", base+"#eof-tolerated", pos, "io.EOF tolerated; completeness of the short read is decided by C17.3")
 			checkShortRead(c, r, s)
 		default:
+			if _, listed := exceptionFor("C17", "C17.2", base+"#"+s.Kind); !listed {
+				if reason, ok := c.nameSearchSkip(s); ok {
+					r.Except("C17.2", base+"#"+s.Kind, pos, reason)
+					continue
+				}
+			}
 			r.Viol("C17.2", base+"#"+s.Kind, pos, s.Detail)
 		}
 	}
@@ -217,4 +222,103 @@ func checkShortRead(c *Ctx, r *Result, s *ErrSite) {
 	} else {
 		shortReads[name] = append(shortReads[name], undecidedItem{pos, "io.EOF is tolerated and the test on the byte count does not imply n >= len(buffer): bytes beyond n stay zero and are parsed as if read"})
 	}
+}
+
+// ioFree: fn and everything it reaches in the library performs no I/O primitive (its errors are about bytes already
+// in memory, never about a failed or short read).
+func (c *Ctx) ioFree(fn *ssa.Function) bool {
+	if c.ioFreeMemo == nil {
+		c.ioFreeMemo = map[*ssa.Function]bool{}
+	}
+	if v, ok := c.ioFreeMemo[fn]; ok {
+		return v
+	}
+	free := true
+	set := c.Reach([]*ssa.Function{fn}, func(f *ssa.Function) bool { return !libPackage(fnPkgPath(f)) })
+	set[fn] = true
+	for f := range set {
+		if f.Blocks == nil {
+			continue
+		}
+		instrs(f, func(in ssa.Instruction) {
+			if call, ok := in.(*ssa.Call); ok && c.ioPrimitiveCall(call) {
+				free = false
+			}
+		})
+	}
+	c.ioFreeMemo[fn] = free
+	return free
+}
+
+// nameSearchSkip: the idiom "search the already-read header messages for the one called <name>": the swallowed error
+// comes from an I/O-free parse, and the parsed value's Name is compared with a string parameter of the searching
+// function. An entry that does not parse cannot be selected by name; no I/O result is involved. Decided from the shape
+// of the code, so that the search loop may live in any function.
+func (c *Ctx) nameSearchSkip(s *ErrSite) (string, bool) {
+	if s.Kind != "swallowed" {
+		return "", false
+	}
+	call, ok := s.Call.(*ssa.Call)
+	if !ok {
+		return "", false
+	}
+	callee := call.Call.StaticCallee()
+	if callee == nil || callee.Blocks == nil || !libPackage(fnPkgPath(callee)) || !c.ioFree(callee) {
+		return "", false
+	}
+	// values reached from the call's non-error results through field selection and loads
+	seen := map[ssa.Value]bool{}
+	var frontier []ssa.Value
+	for _, ref := range *call.Referrers() {
+		if ex, ok := ref.(*ssa.Extract); ok && !isErrorType(ex.Type()) {
+			frontier = append(frontier, ex)
+		}
+	}
+	nameCompared := false
+	for len(frontier) > 0 {
+		v := frontier[0]
+		frontier = frontier[1:]
+		if seen[v] || len(seen) > 64 {
+			continue
+		}
+		seen[v] = true
+		refs := v.Referrers()
+		if refs == nil {
+			continue
+		}
+		for _, ref := range *refs {
+			switch x := ref.(type) {
+			case *ssa.FieldAddr:
+				if x.X == v {
+					frontier = append(frontier, x)
+				}
+			case *ssa.Field:
+				frontier = append(frontier, x)
+			case *ssa.UnOp:
+				if x.Op == token.MUL {
+					frontier = append(frontier, x)
+				}
+			case *ssa.BinOp:
+				if x.Op != token.EQL && x.Op != token.NEQ {
+					continue
+				}
+				if b, ok := x.X.Type().Underlying().(*types.Basic); !ok || b.Info()&types.IsString == 0 {
+					continue
+				}
+				other := x.X
+				if other == v {
+					other = x.Y
+				}
+				for _, p := range s.Caller.Params {
+					if derivedFromValue(other, p, 0) {
+						nameCompared = true
+					}
+				}
+			}
+		}
+	}
+	if !nameCompared {
+		return "", false
+	}
+	return "idiom (decided structurally): in-memory parse of an already-read header message while searching by name - the callee reaches no I/O primitive and the parsed name is compared with the requested one; an unparsable message cannot be the named one", true
 }
